@@ -24,6 +24,7 @@ import itertools
 import math
 import pickle
 import random
+import time
 import traceback
 import warnings
 
@@ -62,7 +63,6 @@ BASE_NETS = [
     ("ab,ab,ab->", (2, 3), []),
     ("ab,ab,ba->ba", (3, 2), []),
     ("a,a,a->a", (3,), []),
-    ("ab,b,a->", (2, 3), []),
     # 4 tensors
     ("ab,bc,cd,da->", (2, 3, 2, 2), [((0, 1), (2, 3), (4, 5))]),
     ("ab,bc,cd,de->ae", (2, 3, 2, 3, 2), []),
@@ -77,7 +77,6 @@ BASE_NETS = [
     ("ab,bc,cd,da->ac", (1, 2, 2, 1), []),
     # 5 tensors
     ("ab,bc,cd,de,ea->", (2, 2, 2, 2, 2), []),
-    ("ab,bc,cd,de,ef->af", (2, 2, 2, 2, 2, 2), []),
     ("ab,bc,cd,de,ef->fa", (2, 2, 2, 2, 2, 3), [((0, 1), (5, 2), (6, 3), (7, 4))]),
     ("abc,cd,de,eb,a->", (2, 2, 2, 2, 2), []),
     ("ab,ac,ad,ae,a->bcde", (2, 2, 2, 2, 2), []),
@@ -245,11 +244,11 @@ def fixed_menu(with_write=False):
         ["parallel_temper_", {"tsteps": 2, "num_trees": 2, "numiter": 1, "target_size": 2, "parallel": False, "seed": 0}],
         ["unslice_rand_", {"seed": 0}],
         ["unslice_all_", {}],
-        ["slice_", {"target_size": 2, "seed": 0}],
-        ["slice_", {"target_slices": 2, "seed": 0}],
-        ["slice_", {"target_slices": 4, "allow_outer": False, "seed": 1}],
-        ["slice_", {"target_size": 2, "reslice": True, "seed": 0}],
-        ["slice_and_reconfigure_", {"target_size": 2, "reconf_opts": {"subtree_size": 3, "maxiter": 2}}],
+        ["slice_", {"target_size": 2, "max_repeats": 4, "seed": 0}],
+        ["slice_", {"target_slices": 2, "max_repeats": 4, "seed": 0}],
+        ["slice_", {"target_slices": 4, "allow_outer": False, "max_repeats": 2, "seed": 1}],
+        ["slice_", {"target_size": 2, "reslice": True, "max_repeats": 4, "seed": 0}],
+        ["slice_and_reconfigure_", {"target_size": 2, "max_repeats": 4, "reconf_opts": {"subtree_size": 3, "maxiter": 2}}],
         ["slice_and_reconfigure_forest_", {"target_size": 2, "num_trees": 2, "max_repeats": 2, "parallel": False,
                                            "reconf_opts": {"subtree_size": 3, "maxiter": 2}}],
         ["sort_contraction_indices", {"priority": "flops"}],
@@ -382,6 +381,18 @@ def clone(obj):
         return pickle.loads(pickle.dumps(obj, pickle.HIGHEST_PROTOCOL))
     except Exception:  # noqa: BLE001
         return copy.deepcopy(obj)
+
+
+def clone_fp(obj):
+    """clone + a fingerprint of the pickled bytes: equal fingerprints imply
+    equal states (the bytes determine the object graph); the converse need not
+    hold, which only costs a repeated check."""
+    try:
+        raw = pickle.dumps(obj, pickle.HIGHEST_PROTOCOL)
+        return pickle.loads(raw), hashlib.blake2b(raw, digest_size=16).digest()
+    except Exception:  # noqa: BLE001
+        c = copy.deepcopy(obj)
+        return c, fingerprint(c)
 
 
 def canon(x, depth=0):
@@ -771,8 +782,17 @@ class Env:
             symval.register_autoray()
             self.arrays = symval.make_arrays(inputs, sd)
         else:
-            rs = np.random.RandomState(1)
-            self.arrays = [rs.uniform(0.5, 1.5, size=tuple(sd[ix] for ix in t)) for t in inputs]
+            space = 1
+            for v in sd.values():
+                space *= v
+            # cost properties never look at values: execute `contract` steps
+            # only where that is cheap, otherwise compile only (see apply_op)
+            self.exec_ok = space <= 100_000
+            if self.exec_ok:
+                rs = np.random.RandomState(1)
+                self.arrays = [rs.uniform(0.5, 1.5, size=tuple(sd[ix] for ix in t)) for t in inputs]
+            else:
+                self.arrays = None
         self._ref = {}
 
     def reference(self, proj):
@@ -838,7 +858,17 @@ def apply_op(st, op, env):
                 st.orig, st.orig_fp, st.tree = t, fingerprint(t), new
                 ret = None
             elif name == "contract":
-                ret = t.contract(env.arrays, **kw)
+                if not env.poly and (t.multiplicity > 4 or not env.exec_ok):
+                    # cost property: the values are not looked at, only the
+                    # caches the call leaves behind (recipes, preprocessing,
+                    # compiled contractor) matter -> compile exactly what
+                    # contract() would compile, without executing every slice
+                    ret = t.get_contractor(
+                        order=kw.get("order"), prefer_einsum=kw.get("prefer_einsum", False), strip_exponent=False,
+                        check_zero=False, implementation=kw.get("implementation"), autojit=False, progbar=False,
+                    )
+                else:
+                    ret = t.contract(env.arrays, **kw)
             elif name == "print_contractions":
                 with contextlib.redirect_stdout(io.StringIO()):
                     ret = t.print_contractions(**kw)
@@ -974,3 +1004,222 @@ def run_history(case, prep, history, checker, env=None, stop_at_first=True):
             if stop_at_first:
                 break
     return problems, applied, skipped
+
+
+# --------------------------------------------------------------------------
+# generic history driver (used by c02_bounded and c04_bounded)
+# --------------------------------------------------------------------------
+_CTX = {}  # set in the parent before forking: pid, module, checker, cases, deadline, ...
+
+
+def signature(pid, case, prep, hist, prob):
+    return f"{pid} history {hist_label(hist)} from state '{prep}' on {case_label(case)}: {short(prob)}"
+
+
+def make_replay_case(case, prep, hist):
+    return {"net": case_json(case), "prep": prep, "history": [[o[0], o[1]] for o in hist]}
+
+
+def _prepare(case, prep, env):
+    st = State(build_tree(case))
+    for op in resolve_prep(PREPS[prep], case):
+        status, payload = apply_op(st, op, env)
+        if status != "ok":
+            return None, f"preparation step {op_label(op)}: {status} {payload}"
+    return st, None
+
+
+def work_exhaustive(item):
+    """All histories of length <= depth from one (case, prepared state) whose
+    first operation is one of item[2] (menu positions)."""
+    ci, prep, firsts, depth = item
+    ctx = _CTX
+    pid = ctx["pid"]
+    case = ctx["cases"][ci]
+    if time.time() > ctx["deadline"]:
+        return {"n": 0, "timeout": 1, "id": [ci, prep]}
+    chk = ctx["checker"]()
+    env = Env(case, poly=chk.poly)
+    menu = menu_for(case, ctx["with_write"])
+    out = {"n": 0, "nt": [], "viol": [], "samples": [], "skipped": 0, "timeout": 0, "id": [ci, prep]}
+    st0, err = _prepare(case, prep, env)
+    if st0 is None:
+        out["viol"].append((signature(pid, case, prep, [], err), make_replay_case(case, prep, [])))
+        out["fires"] = chk.fires
+        return out
+
+    def rec(st, hist, idxs, d):
+        choices = firsts if not hist else range(len(menu))
+        for j in choices:
+            if len(out["viol"]) >= 6:
+                return
+            if time.time() > ctx["deadline"]:
+                out["timeout"] = 1
+                return
+            op = menu[j]
+            st2 = st.fork()
+            status, payload = apply_op(st2, op, env)
+            out["n"] += 1
+            h2 = hist + [op]
+            if status == "skipped":
+                out["skipped"] += 1
+                continue
+            if status == "error":
+                out["viol"].append((signature(pid, case, prep, h2, payload), make_replay_case(case, prep, h2)))
+                continue
+            probs = chk(st2, env, op, payload)
+            out["nt"].append(idxs + [j])
+            if probs:
+                out["viol"].append((signature(pid, case, prep, h2, probs[0]), make_replay_case(case, prep, h2)))
+                continue
+            if d + 1 < depth:
+                rec(st2, h2, idxs + [j], d + 1)
+
+    rec(st0, [], [], 0)
+    if prep == "fresh" and 0 in firsts:
+        out["samples"].append({"network": case_label(case), "state": prep,
+                               "history": hist_label([menu[0], menu[min(5, len(menu) - 1)]])})
+    out["fires"] = chk.fires
+    return out
+
+
+def work_sampled(item):
+    """One seeded longer history on a larger random network."""
+    k, lo, hi = item
+    ctx = _CTX
+    pid = ctx["pid"]
+    if time.time() > ctx["deadline"]:
+        return {"n": 0, "timeout": 1, "id": k}
+    rng = random.Random(1000003 * ctx["seed"] + 17 * k + 5)
+    case = random_case(rng, nmin=ctx["nmin"], nmax=ctx["nmax"], max_space=ctx["max_space"], sizes=ctx["sizes"])
+    prep = rng.choice(PREP_ORDER)
+    length = rng.randint(lo, hi)
+    hist = [sample_op(rng, case, ctx["with_write"]) for _ in range(length)]
+    chk = ctx["checker"]()
+    env = Env(case, poly=chk.poly)
+    probs, applied, skipped = run_history(case, PREPS[prep], hist, chk, env=env)
+    out = {"n": applied + skipped, "nt": [], "viol": [], "samples": [], "skipped": skipped, "timeout": 0,
+           "fires": chk.fires, "id": k}
+    if applied:
+        out["nt"].append(["s"])
+    if probs:
+        kk, p = probs[0]
+        h = hist[: kk + 1] if kk >= 0 else []
+        out["viol"].append((signature(pid, case, prep, h, p), make_replay_case(case, prep, h)))
+    if k < 2:
+        out["samples"].append({"network": case_label(case), "state": prep, "history": hist_label(hist)})
+    return out
+
+
+def aggregate(rep, results, tag, viols, stats):
+    for status, r in results:
+        if status == "crash":
+            rep.crash(f"{rep.pid} worker crashed ({tag}): {r[:600]}")
+            continue
+        stats["timeout"] += r.get("timeout", 0)
+        if not r.get("n"):
+            continue
+        rep.count(r["n"])
+        stats["steps"] += r["n"]
+        stats["skipped"] += r.get("skipped", 0)
+        for key in r.get("nt", ()):
+            rep.nontrivial_case([tag, r.get("id")] + list(key))
+        stats["samples"].extend(r.get("samples", ()))
+        for k, v in r.get("fires", {}).items():
+            rep.fired(k, v)
+        viols.extend(r.get("viol", ()))
+
+
+def run_histories(rep, tier, *, pid, module, checker, sizes, with_write, quick_budget_s, nsamp_quick, nsamp_thorough,
+                  seed_value, pmap, deadline):
+    """Exhaustive length <= 2 (quick) / also <= 3 on a sub-base (thorough)
+    histories over the base set x prepared states + seeded longer samples."""
+    global _CTX
+    quick = tier == "quick"
+    t_end = deadline(tier, quick_budget_s, 1500)
+    cases = base_cases(seed_value, sizes=sizes)
+    nfixed = len(fixed_menu(with_write))
+    viols = []
+    stats = {"steps": 0, "skipped": 0, "timeout": 0, "samples": []}
+    base_ctx = {"pid": pid, "checker": checker, "with_write": with_write, "sizes": sizes, "seed": seed_value, "cases": cases}
+
+    items = []
+    for ci, case in enumerate(cases):
+        m = len(menu_for(case, with_write))
+        for prep in PREP_ORDER:
+            # two work items per (pair, state)
+            items.append((ci, prep, list(range(0, m, 2)), 2))
+            items.append((ci, prep, list(range(1, m, 2)), 2))
+    items.sort(key=lambda it: (-len(menu_for(cases[it[0]], with_write)), it[0], it[1], it[2][0]))  # heavy first
+    _CTX = dict(base_ctx, deadline=t_end)
+    n0 = rep.evaluations
+    aggregate(rep, list(pmap(work_exhaustive, items, chunk=1)), "exh2", viols, stats)
+    t_out = stats["timeout"]
+    rep.scope(
+        f"all histories of length <= 2 over the menu x {len(cases)} (network, tree) pairs x {len(PREP_ORDER)} prepared cache states",
+        rep.evaluations - n0, exhaustive=(t_out == 0),
+        bound=f"3-5 tensors, <= 6 indices, sizes {'1-3' if sizes == 'small' else 'distinct primes'}; menu = {nfixed} fixed ops + 3 per index"
+        + ("" if not t_out else f"; {t_out} work items cut by the time budget"),
+    )
+
+    if not quick:
+        sub = [ci for ci in range(len(cases)) if ci % 4 == 0]
+        preps3 = ["fresh", "sorted+contracted", "annealed"]
+        items = []
+        for ci in sub:
+            m = len(menu_for(cases[ci], with_write))
+            for prep in preps3:
+                for i1 in range(m):
+                    items.append((ci, prep, [i1], 3))
+        stats["timeout"] = 0
+        n0 = rep.evaluations
+        aggregate(rep, list(pmap(work_exhaustive, items, chunk=1)), "exh3", viols, stats)
+        rep.scope(
+            f"all histories of length <= 3 over the menu x {len(sub)} (network, tree) pairs x {len(preps3)} prepared states",
+            rep.evaluations - n0, exhaustive=(stats["timeout"] == 0),
+            bound="every 4th pair of the base set" + ("" if not stats["timeout"] else f"; {stats['timeout']} work items cut by the time budget"),
+        )
+
+    nsamp = nsamp_quick if quick else nsamp_thorough
+    max_space = 1024 if quick else 4096
+    _CTX = dict(base_ctx, deadline=t_end + (15 if quick else 120), nmin=6, nmax=10, max_space=max_space)
+    stats["timeout"] = 0
+    n0 = rep.evaluations
+    aggregate(rep, list(pmap(work_sampled, [(k, 3, 6) for k in range(nsamp)], chunk=2)), "samp", viols, stats)
+    rep.scope(
+        f"seeded sample: {nsamp} histories of length 3-6 on random networks (cotengra.utils.rand_equation, 6-10 tensors), random tree, random prepared state, parameters from the full menus",
+        rep.evaluations - n0, exhaustive=False,
+        bound=f"sample of {nsamp}; index space <= {max_space} assignments" + ("" if not stats["timeout"] else f"; {stats['timeout']} cut by the time budget"),
+    )
+
+    for s in sorted(stats["samples"], key=lambda s: (s["network"], s["history"]))[:4]:
+        rep.sample(s)
+    rep.extra["history_steps_executed"] = rep.extra.get("history_steps_executed", 0) + stats["steps"]
+    rep.extra["steps_skipped_not_applicable"] = rep.extra.get("steps_skipped_not_applicable", 0) + stats["skipped"]
+    return viols
+
+
+def report_violations(rep, module, viols, limit=5):
+    """Shortest histories first, distinct signatures, at most `limit`."""
+    seen = set()
+    viols = sorted(viols, key=lambda v: (len(v[1].get("history", ())), len(v[0]), v[0]))
+    for sig, case in viols:
+        if sig in seen:
+            continue
+        seen.add(sig)
+        rep.violation(sig, {"module": module, "case": case})
+        if len(seen) >= limit:
+            break
+    rep.extra["violating_cases_found"] = len(viols)
+
+
+def replay_history(case, checker):
+    net = case_from_json(case["net"])
+    prep = case["prep"]
+    hist = [[o[0], dict(o[1])] for o in case["history"]]
+    chk = checker()
+    probs, applied, skipped = run_history(net, PREPS[prep], hist, chk)
+    if probs:
+        k, p = probs[0]
+        return False, f"after step {k} of {hist_label(hist)} from state '{prep}' on {case_label(net)}: {p}"
+    return True, f"history {hist_label(hist)} from state '{prep}' on {case_label(net)} held ({applied} steps applied, {skipped} skipped)"
